@@ -1,4 +1,4 @@
-import SluProofs.Lemmas.RoundingLU
+import SluProofs.Lemmas.RoundingEquil
 import Mathlib.Algebra.Order.Field.Rat
 import Mathlib.Tactic.NormNum
 /-
@@ -26,10 +26,15 @@ Constants PROVED (all not larger than the constants the checks use):
                 (`solve_error_check_constant`)         γ_{4n+4}|L̂||Û||x̂| (+ γ_{n+1}|b|)   the check's form
   transposed    (`solve_trans_error_check_constant`)   γ_{4n+4}
   with Pr, Pc   (`solve_error_perm_check_constant`)    γ_{4n+4}
+  expert driver (`expert_equilibrated_check_constant`) γ_{4n+6}|L̂||Û||x_eq| + γ_{n+1}|b1|   (proved: γ_{3n+3}, no |b1| term)
+                (`expert_original_check_constant`)     γ_{4n+10}|L̂||Û||x_eq| + γ_{n+3}|b1|  (proved: γ_{3n+5}, γ_1|b1|)
+Also: sparse kernels that skip structural zeros are covered (`Dot.of_filter`); operations done
+more accurately than `u` are covered (`Dot.mono`, `LUComputed.mono`); with `u = 0` the bounds
+collapse to the exact identities of C01 / C02 (`LUComputed.exact_identity`, `lu_solve_exact`).
 
 NOT covered (remain cited / outside the model): complex arithmetic (the "x4" of DESIGN.md 3.4),
-overflow / underflow (the standard model has no absolute error term), equilibration and iterative
-refinement of the expert driver.
+overflow / underflow (the standard model has no absolute error term; the checks add `tiny`),
+iterative refinement of the expert driver (the `berr` alternative of the C05 check).
 -/
 namespace Slu.Rounding
 open Finset
@@ -143,6 +148,48 @@ theorem solve_error_perm_check_constant {u : F} (hu0 : 0 ≤ u) {n : Nat} {A L U
       gamma u (4 * n + 4) * ∑ j ∈ range n, (∑ t ∈ range n, |L i t| * |U t j|) * |x (pc j)| :=
   lu_solve_backward_error_perm hu0 hpc hinj hLU hy hx (by omega) hu i hi
 
+/-! ### the expert driver's scalings (C05) -/
+
+theorem wsum_nonneg {n : Nat} (L U : Nat → Nat → F) (x : Nat → F) (i : Nat) :
+    0 ≤ ∑ j ∈ range n, (∑ t ∈ range n, |L i t| * |U t j|) * |x j| :=
+  Finset.sum_nonneg fun j _ => mul_nonneg (Finset.sum_nonneg fun t _ => by positivity) (abs_nonneg _)
+
+/-- **C05, equilibrated system** (the check's `okE` clause): `A1`, `b1` as left in `A`, `B` on exit,
+`x_eq = X / t` the returned solution with the column scaling undone exactly;
+`|b1 - A1 x_eq| ≤ γ_{4n+6} |L̂||Û||x_eq| + γ_{n+1} |b1|`. -/
+theorem expert_equilibrated_check_constant {u : F} (hu0 : 0 ≤ u) {n : Nat} {A1 L U : Nat → Nat → F}
+    {b1 y z xe : Nat → F} (hLU : LUComputed u n n 2 A1 L U) (hy : LowerSolved u n 0 L b1 y)
+    (hz : UpperSolved u n 2 U y z) (hx : ∀ j < n, Rnd u (z j) (xe j))
+    (hu : ((4 * n + 6 : Nat) : F) * u < 1) (i : Nat) (hi : i < n) :
+    |b1 i - ∑ j ∈ range n, A1 i j * xe j| ≤
+      gamma u (4 * n + 6) * ∑ j ∈ range n, (∑ t ∈ range n, |L i t| * |U t j|) * |xe j| +
+        gamma u (n + 1) * |b1 i| := by
+  have h1 := expert_equilibrated hu0 hLU hy hz hx (mul_lt_one_of_le hu0 (by omega) hu) i hi
+  have h2 := mul_le_mul_of_nonneg_right (gamma_mono hu0 (j := 3 * n + 3) (k := 4 * n + 6) (by omega) hu)
+    (wsum_nonneg (n := n) L U xe i)
+  have h3 : 0 ≤ gamma u (n + 1) * |b1 i| :=
+    mul_nonneg (gamma_nonneg hu0 (mul_lt_one_of_le hu0 (by omega) hu)) (abs_nonneg _)
+  linarith
+
+/-- **C05, original system** (the check's `okO` clause): `A1 = fl(a * fl(t s))`, `b1 = fl(s b)`,
+`X = t x_eq`; `s_i |b - a X|_i ≤ γ_{4n+10} |L̂||Û||x_eq| + γ_{n+3} |b1|_i`. -/
+theorem expert_original_check_constant {u : F} (hu0 : 0 ≤ u) {n : Nat} {a A1 L U : Nat → Nat → F}
+    {b b1 y z xe X s t : Nat → F}
+    (hLU : LUComputed u n n 2 A1 L U) (hy : LowerSolved u n 0 L b1 y) (hz : UpperSolved u n 2 U y z)
+    (hx : ∀ j < n, Rnd u (z j) (xe j))
+    (hA1 : ∀ i < n, ∀ j < n, ∃ sc, Rnd u (t j * s i) sc ∧ Rnd u (a i j * sc) (A1 i j))
+    (hb1 : ∀ i < n, Rnd u (s i * b i) (b1 i)) (hX : ∀ j < n, X j = t j * xe j)
+    (hu : ((4 * n + 10 : Nat) : F) * u < 1) (i : Nat) (hi : i < n) :
+    |s i| * |b i - ∑ j ∈ range n, a i j * X j| ≤
+      gamma u (4 * n + 10) * ∑ j ∈ range n, (∑ t ∈ range n, |L i t| * |U t j|) * |xe j| +
+        gamma u (n + 3) * |b1 i| := by
+  have h1 := expert_original hu0 hLU hy hz hx hA1 hb1 hX (mul_lt_one_of_le hu0 (by omega) hu) i hi
+  have h2 := mul_le_mul_of_nonneg_right (gamma_mono hu0 (j := 3 * n + 5) (k := 4 * n + 10) (by omega) hu)
+    (wsum_nonneg (n := n) L U xe i)
+  have h3 := mul_le_mul_of_nonneg_right
+    (gamma_mono hu0 (j := 1) (k := n + 3) (by omega) (mul_lt_one_of_le hu0 (by omega) hu)) (abs_nonneg (b1 i))
+  linarith
+
 /-! ### the hypotheses are satisfiable
 
 1. Exact arithmetic is the instance `u = 0`: every exact factorization satisfies `LUComputed 0`
@@ -156,8 +203,62 @@ theorem solve_error_perm_check_constant {u : F} (hu0 : 0 ≤ u) {n : Nat} {A L U
 
 example : (FlModel.exact Rat).u = 0 := rfl
 
+/-- a total inexact arithmetic: `(1 - 1*1) ⊖`-style left-to-right evaluation of `1 - 1/2 * 1` with
+every result inflated by `9/8` gives `7/16 * 9/8 ≠ 1/2`, and Lemma 8.4 holds for it -/
+example : leftEval (FlModel.inflate (1 / 8 : Rat) (by norm_num)) 1 [(1 / 2, 1)] = 63 / 128 := by
+  norm_num [leftEval, FlModel.inflate]
+
+example : |(1 : Rat) - dotSum [((1 : Rat) / 2, 1)] -
+      1 * leftEval (FlModel.inflate (1 / 8 : Rat) (by norm_num)) 1 [(1 / 2, 1)]| ≤
+    gamma (1 / 8 : Rat) 1 * (dotAbs [((1 : Rat) / 2, 1)] +
+      |(1 : Rat)| * |leftEval (FlModel.inflate (1 / 8 : Rat) (by norm_num)) 1 [(1 / 2, 1)]|) :=
+  (dot_left (FlModel.inflate (1 / 8 : Rat) (by norm_num)) 1 [(1 / 2, 1)]).bound
+    (by norm_num [FlModel.inflate]) (by norm_num [Finish.cost, FlModel.inflate])
+
+/-- for every size and every `u ≥ 0` the hypotheses of the LU theorems are satisfiable: exact
+factors are admissible computed factors -/
+example {u : F} (hu0 : 0 ≤ u) {m n : Nat} {A L U : Nat → Nat → F}
+    (hLd : ∀ i < n, L i i = 1) (hLu : ∀ i t, i < t → L i t = 0) (hUl : ∀ t j, j < t → U t j = 0)
+    (hUd : ∀ k < n, U k k ≠ 0) (hA : ∀ i j, j < n → A i j = ∑ t ∈ range n, L i t * U t j) :
+    LUComputed u m n 1 A L U := (LUComputed.of_exact hLd hLu hUl hUd hA).mono hu0
+
 example (M : FlModel F) (c : F) (l : List (F × F)) (bk : F) (hb : bk ≠ 0) :
     Dot M.u c l bk .recip (M.mul (leftEval M c l) (M.div 1 bk)) := dot_left_recip M c l bk hb
+
+/-- a blocked evaluation with mixed signs and a fused multiply-add, in ANY arithmetic obeying the
+model: a gemv-style partial sum `a₀b₀ + a₁b₁` accumulated separately and subtracted from `c`, then
+`fma(-a₂, b₂, ·)`.  It is a `Dot` for the three products, so Lemma 8.4 applies with `γ_3`. -/
+example (M : FlModel F) (c a0 b0 a1 b1 a2 b2 : F) :
+    Dot M.u c [(a0, b0), (a1, b1), (a2, b2)] 1 .none
+      (M.fma (-a2) b2 (M.sub c (M.add (M.mul a0 b0) (M.mul a1 b1)))) := by
+  refine ⟨.fma (.sub (.lit c) (.add (.leaf a0 b0) (.leaf a1 b1))) (-a2) b2, rfl, ?_, _, ?_, rfl, rfl⟩
+  · simp [CTree.leaves, STree.leaves]
+  · refine .fma (.sub (.lit c) (.add (.leaf (M.mul_rnd _ _)) (.leaf (M.mul_rnd _ _)) (M.add_rnd _ _))
+      (M.sub_rnd _ _)) ?_
+    have := M.fma_rnd (-a2) b2 (M.sub c (M.add (M.mul a0 b0) (M.mul a1 b1)))
+    rwa [add_comm] at this
+
+example (M : FlModel F) (hu0 : 0 ≤ M.u) (h3 : ((3 : Nat) : F) * M.u < 1) (c a0 b0 a1 b1 a2 b2 : F) :
+    |c - dotSum [(a0, b0), (a1, b1), (a2, b2)] -
+        1 * M.fma (-a2) b2 (M.sub c (M.add (M.mul a0 b0) (M.mul a1 b1)))| ≤
+      gamma M.u 3 * (dotAbs [(a0, b0), (a1, b1), (a2, b2)] +
+        |(1 : F)| * |M.fma (-a2) b2 (M.sub c (M.add (M.mul a0 b0) (M.mul a1 b1)))|) := by
+  have hd : Dot M.u c [(a0, b0), (a1, b1), (a2, b2)] 1 .none
+      (M.fma (-a2) b2 (M.sub c (M.add (M.mul a0 b0) (M.mul a1 b1)))) := by
+    refine ⟨.fma (.sub (.lit c) (.add (.leaf a0 b0) (.leaf a1 b1))) (-a2) b2, rfl, ?_, _, ?_, rfl, rfl⟩
+    · simp [CTree.leaves, STree.leaves]
+    · refine .fma (.sub (.lit c) (.add (.leaf (M.mul_rnd _ _)) (.leaf (M.mul_rnd _ _)) (M.add_rnd _ _))
+        (M.sub_rnd _ _)) ?_
+      have := M.fma_rnd (-a2) b2 (M.sub c (M.add (M.mul a0 b0) (M.mul a1 b1)))
+      rwa [add_comm] at this
+  exact hd.bound hu0 (by simpa [Finish.cost] using h3)
+
+/-- a sparse kernel that skips the structurally zero product `(0, b₁)` still evaluates the full
+inner product -/
+example {u : F} (hu0 : 0 ≤ u) (c a0 b0 b1 y : F) (h : a0 * b0 ≠ 0)
+    (hd : Dot u c [(a0, b0)] 1 .none y) : Dot u c [(a0, b0), (0, b1)] 1 .none y := by
+  apply Dot.of_filter hu0
+  simpa [List.filter, h] using hd
 
 namespace Ex
 /-- `A = [3 5; 1 2]` -/
